@@ -24,348 +24,10 @@ import (
 	"strings"
 	"time"
 
-	"github.com/pinealctx/neptune/queue/priq"
-	"github.com/pinealctx/neptune/queue/syncq"
-	aq "github.com/pinealctx/neptune/syncx/pipe/async"
-	"github.com/pinealctx/neptune/syncx/pipe/mq"
-	muxq "github.com/pinealctx/neptune/syncx/pipe/mux"
-	pq "github.com/pinealctx/neptune/syncx/pipe/q"
-
+	"verif/harness/cmd/c12/qa"
 	"verif/harness/internal/qx"
 	"verif/harness/internal/tr"
 )
-
-type act struct {
-	Op    string `json:"op"`
-	Lane  string `json:"lane"`
-	Prior bool   `json:"prior"`
-	V     int    `json:"v"`
-	Any   bool   `json:"any"`
-	Pr    int    `json:"pr"`
-	Kind  string `json:"kind"`
-	Ccap  int    `json:"ccap"`
-	Rcap  int    `json:"rcap"`
-}
-
-type planLine struct {
-	A act `json:"a"`
-}
-
-func (a act) rec() tr.E {
-	switch a.Op {
-	case "add":
-		return tr.E{"op": a.Op, "lane": a.Lane, "prior": a.Prior, "v": a.V}
-	case "pop":
-		return tr.E{"op": a.Op, "any": a.Any}
-	case "push":
-		return tr.E{"op": a.Op, "v": a.V, "pr": a.Pr}
-	}
-	return tr.E{"op": a.Op}
-}
-
-func rp(st string, v int) tr.E { return tr.E{"st": st, "v": v} }
-func rb(b bool) tr.E {
-	if b {
-		return rp("true", 0)
-	}
-	return rp("false", 0)
-}
-
-// ---------------------------------------------------------------- items
-// The queues carry interface{}: use several representations of the same item id.
-type boxed struct{ id int }
-
-func mkItem(rep, id int) interface{} {
-	switch rep {
-	case 1:
-		return "i-" + strconv.Itoa(id)
-	case 2:
-		return &boxed{id}
-	case 3:
-		return int64(id)
-	}
-	return id
-}
-
-func unItem(x interface{}) (int, bool) {
-	switch v := x.(type) {
-	case int:
-		return v, true
-	case string:
-		n, err := strconv.Atoi(strings.TrimPrefix(v, "i-"))
-		return n, err == nil
-	case *boxed:
-		if v == nil {
-			return 0, false
-		}
-		return v.id, true
-	case int64:
-		return int(v), true
-	}
-	return 0, false
-}
-
-func itemReply(x interface{}) tr.E {
-	if id, ok := unItem(x); ok {
-		return rp("item", id)
-	}
-	return rp("foreign", 0)
-}
-
-type pitem struct{ id, pr int }
-
-func (p *pitem) GetPriority() int { return p.pr }
-
-// ---------------------------------------------------------------- queues
-type queue interface {
-	do(a act) tr.E // must not block unless a.Op == "pop"
-	obs() tr.E
-}
-
-func errReply(err error, closed error, fulls ...error) tr.E {
-	if err == nil {
-		return rp("ok", 0)
-	}
-	if err == closed {
-		return rp("closed", 0)
-	}
-	for _, f := range fulls {
-		if err == f {
-			return rp("full", 0)
-		}
-	}
-	return rp("err", 0)
-}
-
-func popReply(x interface{}, err error, closed error) tr.E {
-	if err == nil {
-		return itemReply(x)
-	}
-	if err == closed && x == nil {
-		return rp("closed", 0)
-	}
-	return rp("err", 0)
-}
-
-type qQ struct {
-	q   *pq.Q
-	rep int
-}
-
-func (w *qQ) do(a act) tr.E {
-	switch a.Op {
-	case "add":
-		if a.Prior {
-			return errReply(w.q.AddPriorReq(mkItem(w.rep, a.V)), pq.ErrClosed, pq.ErrReqQFull)
-		}
-		return errReply(w.q.AddReq(mkItem(w.rep, a.V)), pq.ErrClosed, pq.ErrReqQFull)
-	case "pop":
-		if a.Any {
-			x, err := w.q.PopAnyway()
-			return popReply(x, err, pq.ErrClosed)
-		}
-		x, err := w.q.Pop()
-		return popReply(x, err, pq.ErrClosed)
-	case "close":
-		w.q.Close()
-		return rp("ok", 0)
-	}
-	tr.Fatal("q.Q: unsupported op %q", a.Op)
-	return nil
-}
-func (w *qQ) obs() tr.E { return tr.E{"k": 0} }
-
-type asyncQ struct {
-	q   *aq.Q
-	rep int
-}
-
-func (w *asyncQ) do(a act) tr.E {
-	switch a.Op {
-	case "add":
-		if a.Prior {
-			return errReply(w.q.AddPrior(mkItem(w.rep, a.V)), aq.ErrClosed, aq.ErrFull)
-		}
-		return errReply(w.q.Add(mkItem(w.rep, a.V)), aq.ErrClosed, aq.ErrFull)
-	case "pop":
-		if a.Any {
-			x, err := w.q.PopAnyway()
-			return popReply(x, err, aq.ErrClosed)
-		}
-		x, err := w.q.Pop()
-		return popReply(x, err, aq.ErrClosed)
-	case "close":
-		w.q.Close()
-		return rp("ok", 0)
-	case "isclosed":
-		return rb(w.q.IsClosed())
-	}
-	tr.Fatal("async.Q: unsupported op %q", a.Op)
-	return nil
-}
-func (w *asyncQ) obs() tr.E { return tr.E{"closed": w.q.IsClosed()} }
-
-type muxQ struct {
-	q   *muxq.Q
-	rep int
-}
-
-func (w *muxQ) do(a act) tr.E {
-	switch a.Op {
-	case "add":
-		if a.Prior {
-			return errReply(w.q.AddPriorReq(mkItem(w.rep, a.V)), muxq.ErrClosed, muxq.ErrQFull)
-		}
-		return errReply(w.q.AddReq(mkItem(w.rep, a.V)), muxq.ErrClosed, muxq.ErrQFull)
-	case "pop":
-		if a.Any {
-			x, err := w.q.PopAnyway()
-			return popReply(x, err, muxq.ErrClosed)
-		}
-		x, err := w.q.Pop()
-		return popReply(x, err, muxq.ErrClosed)
-	case "close":
-		w.q.Close()
-		return rp("ok", 0)
-	case "isclosed":
-		return rb(w.q.IsClosed())
-	}
-	tr.Fatal("mux.Q: unsupported op %q", a.Op)
-	return nil
-}
-func (w *muxQ) obs() tr.E { return tr.E{"closed": w.q.IsClosed()} }
-
-type mqQ struct {
-	q   *mq.MQ
-	rep int
-}
-
-func (w *mqQ) do(a act) tr.E {
-	switch a.Op {
-	case "add":
-		x := mkItem(w.rep, a.V)
-		var err error
-		switch {
-		case a.Lane == "ctrl" && a.Prior:
-			err = w.q.AddPriorCtrl(x)
-		case a.Lane == "ctrl":
-			err = w.q.AddCtrl(x)
-		case a.Prior:
-			err = w.q.AddPriorReq(x)
-		default:
-			err = w.q.AddReq(x)
-		}
-		return errReply(err, mq.ErrClosed, mq.ErrCtrlQFull, mq.ErrReqQFull)
-	case "pop":
-		if a.Any {
-			x, err := w.q.PopAnyway()
-			return popReply(x, err, mq.ErrClosed)
-		}
-		x, err := w.q.Pop()
-		return popReply(x, err, mq.ErrClosed)
-	case "close":
-		w.q.Close()
-		return rp("ok", 0)
-	case "tryclose":
-		return rb(w.q.TryClose())
-	case "tryclear":
-		return rb(w.q.TryClear())
-	case "isclosed":
-		return rb(w.q.IsClosed())
-	case "iscleared":
-		return rb(w.q.IsCleared())
-	}
-	tr.Fatal("mq.MQ: unsupported op %q", a.Op)
-	return nil
-}
-func (w *mqQ) obs() tr.E { return tr.E{"closed": w.q.IsClosed(), "cleared": w.q.IsCleared()} }
-
-type syncQ struct {
-	q   *syncq.SyncQueue
-	rep int
-}
-
-func (w *syncQ) do(a act) tr.E {
-	switch a.Op {
-	case "add":
-		w.q.Push(mkItem(w.rep, a.V))
-		return rp("ok", 0)
-	case "pop":
-		x := w.q.Pop()
-		if x == nil {
-			return rp("closed", 0)
-		}
-		return itemReply(x)
-	case "trypop":
-		x, ok := w.q.TryPop()
-		switch {
-		case ok && x == nil:
-			return rp("closed", 0)
-		case ok:
-			return itemReply(x)
-		case x == nil:
-			return rp("empty", 0)
-		}
-		return rp("err", 0)
-	case "close":
-		w.q.Close()
-		return rp("ok", 0)
-	case "len":
-		return rp("len", w.q.Len())
-	}
-	tr.Fatal("syncq: unsupported op %q", a.Op)
-	return nil
-}
-func (w *syncQ) obs() tr.E { return tr.E{"len": w.q.Len()} }
-
-type priQ struct{ q *priq.PriQueue }
-
-func (w *priQ) do(a act) tr.E {
-	switch a.Op {
-	case "push":
-		err := w.q.Push(&pitem{a.V, a.Pr})
-		return errReply(err, nil, priq.ErrQueueIsFull)
-	case "pop":
-		e := w.q.Pop()
-		if e == nil {
-			return rp("empty", 0)
-		}
-		if it, ok := e.(*pitem); ok && it != nil {
-			return rp("item", it.id)
-		}
-		return rp("foreign", 0)
-	case "len":
-		return rp("len", w.q.Len())
-	}
-	tr.Fatal("priq: unsupported op %q", a.Op)
-	return nil
-}
-func (w *priQ) obs() tr.E { return tr.E{"len": w.q.Len()} }
-
-func newQueue(kind string, ccap, rcap, rep int) queue {
-	switch kind {
-	case "q":
-		if rcap == 0 && rep%2 == 0 {
-			return &qQ{pq.NewQ(), rep}
-		}
-		return &qQ{pq.NewQ(pq.WithSize(rcap)), rep}
-	case "async":
-		return &asyncQ{aq.NewQ(rcap), rep}
-	case "mux":
-		return &muxQ{muxq.NewQ(rcap), rep}
-	case "mq":
-		if ccap == 0 && rcap == 0 && rep%2 == 0 {
-			return &mqQ{mq.NewMQ(), rep}
-		}
-		return &mqQ{mq.NewMQ(mq.WithQCtrlSize(ccap), mq.WithQReqSize(rcap)), rep}
-	case "syncq":
-		return &syncQ{syncq.NewSyncQueue(), rep}
-	case "priq":
-		return &priQ{priq.NewPriQueue(rcap)}
-	}
-	tr.Fatal("unknown kind %q", kind)
-	return nil
-}
 
 // ---------------------------------------------------------------- helper goroutine for calls that may block
 type helper struct {
@@ -425,20 +87,10 @@ func (h *helper) call(f func() tr.E) (tr.E, bool) {
 
 func (h *helper) stop() { close(h.cmd) }
 
-// safe converts a panic inside the library into a reply the spec cannot explain.
-func safe(q queue, a act) (r tr.E) {
-	defer func() {
-		if p := recover(); p != nil {
-			r = rp("panic", 0)
-		}
-	}()
-	return q.do(a)
-}
-
 // ---------------------------------------------------------------- execution
 type runner struct {
 	w      *tr.W
-	q      queue
+	q      qa.Queue
 	kind   string
 	h      *helper
 	cnt    int  // accepted minus handed out, from the real replies
@@ -446,41 +98,13 @@ type runner struct {
 	dead   bool // a call blocked: the trace is over
 }
 
-func supports(kind string, a act) bool {
-	switch a.Op {
-	case "add":
-		if kind == "priq" {
-			return false
-		}
-		if a.Lane == "ctrl" {
-			return kind == "mq"
-		}
-		return a.Lane == "req" && !(kind == "syncq" && a.Prior)
-	case "pop":
-		return kind != "syncq" || a.Any
-	case "close":
-		return kind != "priq"
-	case "isclosed":
-		return kind == "async" || kind == "mux" || kind == "mq"
-	case "tryclose", "tryclear", "iscleared":
-		return kind == "mq"
-	case "trypop":
-		return kind == "syncq"
-	case "len":
-		return kind == "syncq" || kind == "priq"
-	case "push":
-		return kind == "priq"
-	}
-	return false
-}
-
-func (r *runner) step(a act) {
-	if r.dead || !supports(r.kind, a) {
+func (r *runner) step(a qa.Act) {
+	if r.dead || !qa.Supports(r.kind, a) {
 		return
 	}
 	if r.kind == "priq" {
-		rep := safe(r.q, a)
-		r.w.Emit(tr.E{"ev": "call", "a": a.rec(), "r": rep, "obs": r.q.obs()})
+		rep := qa.Safe(r.q, a)
+		r.w.Emit(tr.E{"ev": "call", "a": a.Rec(), "r": rep, "obs": r.q.Obs()})
 		if a.Op == "push" && rep["st"] == "ok" {
 			r.cnt++
 		}
@@ -499,17 +123,17 @@ func (r *runner) step(a act) {
 		}
 		var ok bool
 		q := r.q
-		rep, ok = r.h.call(func() tr.E { return safe(q, a) })
+		rep, ok = r.h.call(func() tr.E { return qa.Safe(q, a) })
 		if !ok {
-			r.w.Emit(tr.E{"ev": "call", "a": a.rec(), "r": rp("blocked", 0), "obs": tr.E{"k": 0}})
+			r.w.Emit(tr.E{"ev": "call", "a": a.Rec(), "r": qa.Rp("blocked", 0), "obs": tr.E{"k": 0}})
 			r.dead = true
 			r.h = nil // the goroutine stays parked in the abandoned queue
 			return
 		}
 	} else {
-		rep = safe(r.q, a)
+		rep = qa.Safe(r.q, a)
 	}
-	r.w.Emit(tr.E{"ev": "call", "a": a.rec(), "r": rep, "obs": r.q.obs()})
+	r.w.Emit(tr.E{"ev": "call", "a": a.Rec(), "r": rep, "obs": r.q.Obs()})
 	switch a.Op {
 	case "add":
 		if rep["st"] == "ok" && !r.closed {
@@ -532,30 +156,30 @@ func (r *runner) step(a act) {
 func (r *runner) drain(rng *rand.Rand) {
 	if r.kind == "priq" {
 		for i := r.cnt + 1; i >= 0 && !r.dead; i-- {
-			r.step(act{Op: "pop"})
+			r.step(qa.Act{Op: "pop"})
 		}
-		r.step(act{Op: "len"})
+		r.step(qa.Act{Op: "len"})
 		return
 	}
 	if !r.closed {
 		if r.kind == "mq" && rng.Intn(2) == 0 {
-			r.step(act{Op: "tryclose"})
+			r.step(qa.Act{Op: "tryclose"})
 		}
-		r.step(act{Op: "close"})
+		r.step(qa.Act{Op: "close"})
 	}
 	if r.kind == "mq" {
-		r.step(act{Op: "tryclear"})
+		r.step(qa.Act{Op: "tryclear"})
 	}
 	for i := r.cnt + 1; i >= 0 && !r.dead; i-- {
 		if r.kind == "syncq" && rng.Intn(2) == 0 {
-			r.step(act{Op: "trypop"})
+			r.step(qa.Act{Op: "trypop"})
 		} else {
-			r.step(act{Op: "pop", Any: true})
+			r.step(qa.Act{Op: "pop", Any: true})
 		}
 	}
 	if r.kind == "mq" {
-		r.step(act{Op: "tryclear"})
-		r.step(act{Op: "iscleared"})
+		r.step(qa.Act{Op: "tryclear"})
+		r.step(qa.Act{Op: "iscleared"})
 	}
 	if r.h != nil {
 		r.h.stop()
@@ -563,8 +187,8 @@ func (r *runner) drain(rng *rand.Rand) {
 	}
 }
 
-func runTrace(w *tr.W, rng *rand.Rand, src, kind string, ccap, rcap, rep int, plan []act) {
-	r := &runner{w: w, q: newQueue(kind, ccap, rcap, rep), kind: kind}
+func runTrace(w *tr.W, rng *rand.Rand, src, kind string, ccap, rcap, rep int, plan []qa.Act) {
+	r := &runner{w: w, q: qa.New(kind, ccap, rcap, rep), kind: kind}
 	w.Emit(tr.E{"ev": "reset", "kind": kind, "ccap": ccap, "rcap": rcap, "src": src, "rep": rep})
 	for _, a := range plan {
 		r.step(a)
@@ -572,16 +196,16 @@ func runTrace(w *tr.W, rng *rand.Rand, src, kind string, ccap, rcap, rep int, pl
 	r.drain(rng)
 }
 
-func readPlan(path string) []act {
+func readPlan(path string) []qa.Act {
 	f, err := os.Open(path)
 	if err != nil {
 		tr.Fatal("%v", err)
 	}
 	defer f.Close()
-	var out []act
+	var out []qa.Act
 	sc := bufio.NewScanner(f)
 	for sc.Scan() {
-		var l planLine
+		var l qa.PlanLine
 		if err := json.Unmarshal(sc.Bytes(), &l); err != nil {
 			tr.Fatal("plan %s: %v", path, err)
 		}
@@ -591,8 +215,8 @@ func readPlan(path string) []act {
 }
 
 // randHistory: boundary-biased history for one list queue.  Item ids are fresh (1, 2, 3 ...).
-func randHistory(rng *rand.Rand, kind string, n int) []act {
-	var out []act
+func randHistory(rng *rand.Rand, kind string, n int) []qa.Act {
+	var out []qa.Act
 	id := 0
 	closeAt := -1
 	switch rng.Intn(4) {
@@ -605,7 +229,7 @@ func randHistory(rng *rand.Rand, kind string, n int) []act {
 	pAdd := 30 + rng.Intn(30) // add-heavy histories reach the bound, pop-heavy ones the empty queue
 	for i := 0; i < n; i++ {
 		if i == closeAt {
-			out = append(out, act{Op: "close"})
+			out = append(out, qa.Act{Op: "close"})
 			continue
 		}
 		x := rng.Intn(100)
@@ -616,30 +240,30 @@ func randHistory(rng *rand.Rand, kind string, n int) []act {
 			if kind == "mq" && rng.Intn(5) < 2 {
 				lane = "ctrl"
 			}
-			out = append(out, act{Op: "add", Lane: lane, Prior: kind != "syncq" && rng.Intn(4) == 0, V: id})
+			out = append(out, qa.Act{Op: "add", Lane: lane, Prior: kind != "syncq" && rng.Intn(4) == 0, V: id})
 		case x < pAdd+30:
 			if kind == "syncq" {
 				if rng.Intn(2) == 0 {
-					out = append(out, act{Op: "trypop"})
+					out = append(out, qa.Act{Op: "trypop"})
 				} else {
-					out = append(out, act{Op: "pop", Any: true})
+					out = append(out, qa.Act{Op: "pop", Any: true})
 				}
 			} else {
-				out = append(out, act{Op: "pop", Any: rng.Intn(5) < 2})
+				out = append(out, qa.Act{Op: "pop", Any: rng.Intn(5) < 2})
 			}
 		case x < pAdd+36:
-			out = append(out, act{Op: "tryclose"}) // mq only (skipped elsewhere)
+			out = append(out, qa.Act{Op: "tryclose"}) // mq only (skipped elsewhere)
 		case x < pAdd+40:
-			out = append(out, act{Op: "tryclear"})
+			out = append(out, qa.Act{Op: "tryclear"})
 		default:
-			out = append(out, act{Op: []string{"isclosed", "iscleared", "len", "trypop"}[rng.Intn(4)]})
+			out = append(out, qa.Act{Op: []string{"isclosed", "iscleared", "len", "trypop"}[rng.Intn(4)]})
 		}
 	}
 	return out
 }
 
-func randPriHistory(rng *rand.Rand, n int) []act {
-	var out []act
+func randPriHistory(rng *rand.Rand, n int) []qa.Act {
+	var out []qa.Act
 	id := 0
 	prios := []int{1, 2, 3}
 	switch rng.Intn(4) {
@@ -656,11 +280,11 @@ func randPriHistory(rng *rand.Rand, n int) []act {
 		switch {
 		case x < pPush:
 			id++
-			out = append(out, act{Op: "push", V: id, Pr: prios[rng.Intn(len(prios))]})
+			out = append(out, qa.Act{Op: "push", V: id, Pr: prios[rng.Intn(len(prios))]})
 		case x < 92:
-			out = append(out, act{Op: "pop"})
+			out = append(out, qa.Act{Op: "pop"})
 		default:
-			out = append(out, act{Op: "len"})
+			out = append(out, qa.Act{Op: "len"})
 		}
 	}
 	return out
